@@ -4,3 +4,10 @@ import PMH.Props.C07
 #print axioms PMH.C07.bounds_ordered
 #print axioms PMH.C07.bounds_contain_J
 #print axioms PMH.RA.bounds_contain_min
+#print axioms PMH.C07.register_distribution
+#print axioms PMH.C07.register_collision_probability
+#print axioms PMH.C07.collision_determined_by_cardinalities
+#print axioms PMH.C07.expected_fraction_of_equal_registers
+#print axioms PMH.C07.position_sees_exponential
+#print axioms PMH.SskLaw.scheme_expected_fraction
+#print axioms PMH.SskLaw.position_law_perm
